@@ -154,5 +154,12 @@ def check(repo: Repo, run: Run) -> None:
     info = effrules.interp_analysis(repo)
     esc = {(t, e) for t, e, _ in info["escapes"]}
     for tag in ("Evaluator.function_eval", "Evaluator.method_eval"):
-        for exc in ("ValueError", "TypeError"):
-            run.ob("C14.F5", f"{tag}|{exc}", (tag, exc) not in esc, f"{exc} raised by a host function is converted in {tag}", str(ev.path))
+        for exc in ("ValueError", "TypeError", "HostValueError", "HostTypeError"):
+            sub = " (any subclass)" if exc.startswith("Host") else ""
+            run.ob("C14.F5", f"{tag}|{exc}", (tag, exc) not in esc, f"{exc.replace('Host', '')}{sub} raised by a host function is converted in {tag}", str(ev.path))
+        # the converting code must not fail itself: no escaping exception originates in the body of the call method
+        own = sorted((e, o) for (t, e), orgs in info["origins"].items() if t == tag for o in orgs if o.endswith(f"at evaluation.{tag}"))
+        run.ob("C14.F5", f"{tag}|handler-total", not own,
+               f"{tag}: " + ("nothing escapes from the method's own code (lookups, conversion handlers)" if not own else
+                             f"{own[0][0]} arises in the method's own code ({own[0][1]}): a host function's error is replaced by a Python exception instead of an evaluation error"),
+               str(ev.path))
